@@ -1,8 +1,10 @@
 (** * C12 proofs, part 3: the REGION theorems -- merging the holes preserves the region.
 
     [poly_get_closed_loop] processes the holes one at a time: at every stage its own nearest-pair scan chooses
-    an attachment vertex [me] of the CURRENT outline (outer outline + the holes merged so far), a hole [ml]
-    and a start vertex [iv'] of that hole, and splices the hole's walk in.  [merge_trace] records these
+    an attachment vertex [me0] of the CURRENT outline (outer outline + the holes merged so far), a hole [ml]
+    and a start vertex [iv'] of that hole; since fix bcb072e the position [me] = [attach_index ..] at which the hole's walk
+    is spliced in is the visit of that vertex whose interior angle contains the bridge ([attach_same_vertex],
+    [attach_index_cases], [in_cone_orient]); the region identities below hold for any position of the current outline.  [merge_trace] records these
     choices ([mstep]); [apply_steps] replays them; [trace_spec] says that this is [merge_spec], i.e.
     (under [closed_loop_clean]) the vertex list of the code's result.
 
@@ -27,7 +29,7 @@
 From Coq Require Import ZArith Reals Lra Lia Bool List Arith Permutation Floats Psatz.
 From G3 Require Import Model.Num Model.NumF Model.Base Model.Vec Model.Segment Model.Loop Model.Polygon Model.PolyAux Theory.RInst Theory.LoopGeom
   Proofs.C10_measures Proofs.C11_cut_hole Proofs.C12_merge Proofs.C12_edge_sum.
-From G3 Require Theory.Cyclic Theory.Winding Theory.Shoelace.
+From G3 Require Theory.Cyclic Theory.Winding Theory.Shoelace Proofs.C05_pointtest Proofs.C05_winding.
 Import ListNotations.
 
 (** ** the trace of the merge *)
@@ -36,8 +38,10 @@ Section Trace.
   Notation V := (V3 K).
 
   (** one stage: attach hole number [ms_ml] (= [ms_hole]) at position [ms_me] of the current outline, walking it
-      from its vertex [ms_id] *)
-  Record mstep := mkStep { ms_me : nat; ms_ml : nat; ms_hole : Loop K; ms_id : nat }.
+      from its vertex [ms_id].  [ms_me0] is the position found by the nearest-pair scan; since fix bcb072e the
+      attachment position [ms_me] = [attach_index] is the visit of that same vertex whose interior angle contains the
+      bridge (it can differ from [ms_me0] when the vertex already carries a bridge). *)
+  Record mstep := mkStep { ms_me : nat; ms_ml : nat; ms_hole : Loop K; ms_id : nat; ms_me0 : nat }.
   Definition step_walk (on : V) (s : mstep) : list V :=
     walk_list false (vis_same_direction on (lnormal (ms_hole s))) (verts (ms_hole s)) (ms_id s).
   Fixpoint apply_steps (on : V) (vs : list V) (tr : list mstep) : list V :=
@@ -49,12 +53,16 @@ Section Trace.
     match count with
     | O => Some []
     | S c =>
-      let '(md, me, ml, il', iv') := scan_ext vs 0 (pinner P) processed (scan_start false, O, O, il, iv_id) in
+      let '(md, me0, ml, il', iv') := scan_ext vs 0 (pinner P) processed (scan_start false, O, O, il, iv_id) in
       match nth_error (pinner P) ml with
       | None => None
       | Some hole =>
-        let s := mkStep me ml hole iv' in
-        option_map (cons s) (merge_trace P c (splice vs 0 me (step_walk (lnormal (pouter P)) s)) (processed ++ [il']) il' iv')
+        match attach_index false P vs me0 hole iv' with
+        | Ok me =>
+          let s := mkStep me ml hole iv' me0 in
+          option_map (cons s) (merge_trace P c (splice vs 0 me (step_walk (lnormal (pouter P)) s)) (processed ++ [il']) il' iv')
+        | _ => None
+        end
       end
     end.
   Definition closed_loop_trace (P : Poly K) : option (list mstep) :=
@@ -65,8 +73,9 @@ Section Trace.
     option_map (apply_steps (lnormal (pouter P)) vs) (merge_trace P count vs processed il iv).
   Proof.
     induction count as [|c IH]; intros vs processed il iv; cbn [merge_spec merge_trace]; [reflexivity|].
-    destruct (scan_ext vs 0 (pinner P) processed (scan_start false, 0, 0, il, iv)) as [[[[md me] ml] il'] iv'].
+    destruct (scan_ext vs 0 (pinner P) processed (scan_start false, 0, 0, il, iv)) as [[[[md me0] ml] il'] iv'].
     destruct (nth_error (pinner P) ml) as [hole|]; [|reflexivity].
+    destruct (attach_index false P vs me0 hole iv') as [me| |]; try reflexivity.
     rewrite IH. unfold step_walk at 1. cbn [ms_hole ms_id].
     destruct (merge_trace P c _ (processed ++ [il']) il' iv') as [tr|]; reflexivity.
   Qed.
@@ -76,8 +85,9 @@ Section Trace.
   Proof.
     induction count as [|c IH]; intros vs processed il iv tr; cbn [merge_trace].
     - intros H; injection H as H; subst tr. split; [reflexivity | constructor].
-    - destruct (scan_ext vs 0 (pinner P) processed (scan_start false, 0, 0, il, iv)) as [[[[md me] ml] il'] iv'].
+    - destruct (scan_ext vs 0 (pinner P) processed (scan_start false, 0, 0, il, iv)) as [[[[md me0] ml] il'] iv'].
       destruct (nth_error (pinner P) ml) as [hole|] eqn:En; [|discriminate].
+      destruct (attach_index false P vs me0 hole iv') as [me| |]; try discriminate.
       destruct (merge_trace P c _ (processed ++ [il']) il' iv') as [tr'|] eqn:Et; [|discriminate].
       cbn [option_map]. intros H; injection H as H; subst tr. destruct (IH _ _ _ _ _ Et) as [Hl Hf].
       split; [cbn [length]; f_equal; exact Hl|]. constructor; [exact En | exact Hf].
@@ -586,17 +596,61 @@ Section ScanFacts.
     - right. exists d, j', k', l', h. split; [exact E|]. split; [cbn [length]; lia|]. split; [exact Hn|]. split; [exact Hl | exact Hp].
   Qed.
 
+  (** *** the attachment position (fix bcb072e): a visit of the same vertex (up to Point3D::compare) whose interior angle,
+      for the outer normal, contains the bridge; the scan's own position when there is none (or for a single hole) *)
+  Lemma find_visit_spec (n e h : V) (vs : list V) (len : nat) : forall cnt j r, find_visit n e h vs len j cnt = Some r ->
+    (j <= r < j + cnt)%nat /\ vcompare (vnth vs r) e = true /\
+    in_cone n e (vnth vs (Nat.modulo (r + len - 1) len)) (vnth vs (Nat.modulo (r + 1) len)) h = true.
+  Proof.
+    induction cnt as [|c IH]; intros j r; cbn [find_visit]; [discriminate|].
+    destruct (vcompare (vnth vs j) e && in_cone n e (vnth vs (Nat.modulo (j + len - 1) len)) (vnth vs (Nat.modulo (j + 1) len)) h) eqn:E.
+    - intros H. injection H as H. subst r. apply andb_prop in E. destruct E as [E1 E2]. split; [lia|]. split; assumption.
+    - intros H. destruct (IH _ _ H) as [Hr Hs]. split; [lia | exact Hs].
+  Qed.
+  Lemma attach_index_cases (P : Poly K) (vs : list V) (me0 : nat) (hole : Loop K) (iv me : nat) :
+    attach_index false P vs me0 hole iv = Ok me ->
+    me = me0 \/
+    ((me < length vs)%nat /\ (me0 < length vs)%nat /\ (iv < llen hole)%nat /\ (1 < length (pinner P))%nat /\
+     vcompare (vnth vs me) (vnth vs me0) = true /\
+     in_cone (lnormal (pouter P)) (vnth vs me0) (vnth vs (Nat.modulo (me + length vs - 1) (length vs)))
+             (vnth vs (Nat.modulo (me + 1) (length vs))) (vnth (verts hole) iv) = true).
+  Proof.
+    unfold attach_index. destruct (Nat.ltb 1 (length (pinner P)) && Nat.ltb iv (llen hole)) eqn:Eb; [|intros H; injection H as H; left; symmetry; exact H].
+    apply andb_prop in Eb. destruct Eb as [E1 E2]. apply Nat.ltb_lt in E1. apply Nat.ltb_lt in E2.
+    destruct (Nat.leb (length vs) me0) eqn:El; [discriminate|]. apply Nat.leb_gt in El.
+    destruct (find_visit _ _ _ vs (length vs) 0 (length vs)) as [j|] eqn:Ef; intros H; injection H as H; subst me; [|left; reflexivity].
+    destruct (find_visit_spec _ _ _ _ _ _ _ _ Ef) as [Hr [Hc Hi]]. right. repeat split; try assumption; lia.
+  Qed.
+  Lemma attach_index_lt (P : Poly K) (vs : list V) (me0 : nat) (hole : Loop K) (iv me : nat) :
+    attach_index false P vs me0 hole iv = Ok me -> (me0 < length vs)%nat -> (me < length vs)%nat.
+  Proof. intros H H0. destruct (attach_index_cases _ _ _ _ _ _ H) as [E|[E _]]; [subst; exact H0 | exact E]. Qed.
+  Lemma attach_index_ok (P : Poly K) (vs : list V) (me0 : nat) (hole : Loop K) (iv : nat) :
+    (me0 < length vs)%nat -> exists me, attach_index false P vs me0 hole iv = Ok me.
+  Proof.
+    intros H. unfold attach_index. destruct (Nat.ltb 1 (length (pinner P)) && Nat.ltb iv (llen hole)); [|eexists; reflexivity].
+    assert (E : Nat.leb (length vs) me0 = false) by (apply Nat.leb_gt; exact H). rewrite E.
+    destruct (find_visit _ _ _ vs (length vs) 0 (length vs)); eexists; reflexivity.
+  Qed.
+  (** what the fix is for, part 1: the chosen position is a visit of the SAME vertex, so the bridge still joins the nearest pair *)
+  Theorem attach_same_vertex (P : Poly K) (vs : list V) (me0 : nat) (hole : Loop K) (iv me : nat) :
+    attach_index false P vs me0 hole iv = Ok me -> vcompare (vnth vs me) (vnth vs me0) = true \/ me = me0.
+  Proof. intros H. destruct (attach_index_cases _ _ _ _ _ _ H) as [E|(_ & _ & _ & _ & E & _)]; [right; exact E | left; exact E]. Qed.
+
   (** every stage hits: the minimum found is below the initial constant *)
   Fixpoint merge_hits (P : Poly K) (count : nat) (vs : list V) (processed : list nat) (il iv_id : nat) : bool :=
     match count with
     | O => true
     | S c =>
-      let '(md, me, ml, il', iv') := scan_ext vs 0 (pinner P) processed (scan_start false, O, O, il, iv_id) in
+      let '(md, me0, ml, il', iv') := scan_ext vs 0 (pinner P) processed (scan_start false, O, O, il, iv_id) in
       (md <? scan_start false) &&
       match nth_error (pinner P) ml with
       | None => false
       | Some hole =>
-        merge_hits P c (splice vs 0 me (walk_list false (vis_same_direction (lnormal (pouter P)) (lnormal hole)) (verts hole) iv')) (processed ++ [il']) il' iv'
+        match attach_index false P vs me0 hole iv' with
+        | Ok me =>
+          merge_hits P c (splice vs 0 me (walk_list false (vis_same_direction (lnormal (pouter P)) (lnormal hole)) (verts hole) iv')) (processed ++ [il']) il' iv'
+        | _ => false
+        end
       end
     end.
   Definition closed_loop_hits (P : Poly K) : bool := merge_hits P (length (pinner P)) (verts (pouter P)) [] 0 0.
@@ -617,10 +671,12 @@ Section ScanFacts.
     - intros _. exists []. repeat split. intros s [].
     - destruct (scan_ext_cases (pinner P) processed vs 0 (scan_start false, 0, 0, il, iv)) as [E|[d [j' [k' [l' [h [E [Hj [Hn [Hl Hp]]]]]]]]]]; rewrite E.
       + rewrite lt_irrefl. discriminate.
-      + rewrite Hn. intros H. apply andb_prop in H. destruct H as [_ H].
+      + rewrite Hn. destruct (attach_index false P vs j' h l') as [me| |] eqn:Ea; try (rewrite andb_false_r; discriminate).
+        assert (Hme : (me < length vs)%nat) by (apply (attach_index_lt _ _ _ _ _ _ Ea); lia).
+        intros H. apply andb_prop in H. destruct H as [_ H].
         destruct (IH _ _ _ _ H) as [tr [Et [Hb [Hd Hq]]]]. unfold step_walk at 1. cbn [ms_hole ms_id]. rewrite Et. cbn [option_map].
         eexists. split; [reflexivity|]. cbn [steps_bounds map nodupb ms_me ms_id ms_hole ms_ml]. repeat split.
-        * assert (E1 : Nat.ltb j' (length vs) = true) by (apply Nat.ltb_lt; lia).
+        * assert (E1 : Nat.ltb me (length vs) = true) by (apply Nat.ltb_lt; exact Hme).
           assert (E2 : Nat.ltb l' (llen h) = true) by (apply Nat.ltb_lt; exact Hl).
           rewrite E1, E2. cbn [andb]. exact Hb.
         * rewrite Hd, andb_true_r. apply negb_true_iff.
@@ -640,6 +696,45 @@ End ScanFacts.
 (** on the reals: [Float::MAX < Float::MAX] is false *)
 Theorem hits_wf_R (P : Poly R) : closed_loop_hits P = true -> closed_loop_wf P = true.
 Proof. apply hits_wf. apply Rltb_false. apply Rle_refl. Qed.
+
+(** ** what the fix is for, part 2 (reals): the cone test of [attach_index] in the 2-D coordinates of the plane.
+    With n = e1 x e2 and p' = [plane2 o e1 e2 p]:  [in_cone n e prev next h] holds iff
+    - the corner (prev, e, next) is convex or straight for n ([orient e' next' prev' >= 0]) and the bridge direction e -> h lies
+      STRICTLY inside the interior angle, i.e. strictly left of e -> next and strictly right of e -> prev; or
+    - the corner is reflex and h does not lie in the closed exterior angle (between e -> prev and e -> next). *)
+Section ConeR.
+  Local Open Scope R_scope.
+  Lemma vdot_comm (a b : V) : vdot a b = vdot b a. Proof. vunf. rnum. ring. Qed.
+  Lemma cross_dot_orient (o e1 e2 e a b : V) :
+    vdot (vcross (vsub a e) (vsub b e)) (vcross e1 e2) =
+    Winding.orient (C05_pointtest.plane2 o e1 e2 e) (C05_pointtest.plane2 o e1 e2 a) (C05_pointtest.plane2 o e1 e2 b).
+  Proof.
+    rewrite vdot_comm, C05_pointtest.binet_cauchy, !(C05_pointtest.planev_sub o). rewrite <- C05_winding.orient2_is_orient. reflexivity.
+  Qed.
+  Lemma in_cone_orient_b (o e1 e2 e prev next h : V) :
+    let O := fun a b => Winding.orient (C05_pointtest.plane2 o e1 e2 e) (C05_pointtest.plane2 o e1 e2 a) (C05_pointtest.plane2 o e1 e2 b) in
+    in_cone (vcross e1 e2) e prev next h =
+    if Rleb 0 (O next prev) then Rltb 0 (O next h) && Rltb 0 (O h prev) else negb (Rleb 0 (O prev h) && Rleb 0 (O h next)).
+  Proof. cbn zeta. unfold in_cone. rewrite !(cross_dot_orient o). rnum. reflexivity. Qed.
+  Theorem in_cone_orient (o e1 e2 e prev next h : V) :
+    let O := fun a b => Winding.orient (C05_pointtest.plane2 o e1 e2 e) (C05_pointtest.plane2 o e1 e2 a) (C05_pointtest.plane2 o e1 e2 b) in
+    in_cone (vcross e1 e2) e prev next h = true <->
+    (0 <= O next prev /\ 0 < O next h /\ 0 < O h prev) \/ (O next prev < 0 /\ ~ (0 <= O prev h /\ 0 <= O h next)).
+  Proof.
+    cbn zeta. rewrite (in_cone_orient_b o). cbn zeta.
+    set (x := Winding.orient _ (C05_pointtest.plane2 o e1 e2 next) (C05_pointtest.plane2 o e1 e2 prev)).
+    set (y := Winding.orient _ (C05_pointtest.plane2 o e1 e2 next) (C05_pointtest.plane2 o e1 e2 h)).
+    set (z := Winding.orient _ (C05_pointtest.plane2 o e1 e2 h) (C05_pointtest.plane2 o e1 e2 prev)).
+    set (u := Winding.orient _ (C05_pointtest.plane2 o e1 e2 prev) (C05_pointtest.plane2 o e1 e2 h)).
+    set (w := Winding.orient _ (C05_pointtest.plane2 o e1 e2 h) (C05_pointtest.plane2 o e1 e2 next)).
+    destruct (Rleb 0 x) eqn:Ex; [apply Rleb_true in Ex | apply Rleb_false in Ex].
+    - rewrite andb_true_iff, !Rltb_true. split; [intros [H1 H2]; left; repeat split; assumption | intros [[_ H]|[H _]]; [exact H | lra]].
+    - rewrite negb_true_iff, andb_false_iff, !Rleb_false. split.
+      + intros H. right. split; [exact Ex|]. intros [H1 H2]. destruct H; lra.
+      + intros [[H _]|[_ H]]; [lra|]. destruct (Rlt_le_dec u 0) as [Hu|Hu]; [left; exact Hu|]. destruct (Rlt_le_dec w 0) as [Hw|Hw]; [right; exact Hw|].
+        exfalso. apply H. split; assumption.
+  Qed.
+End ConeR.
 
 (** ** no new vertices, and the merged loop's own normal *)
 Section MergedNormal.
@@ -676,9 +771,10 @@ Section MergedNormal.
   Proof.
     induction count as [|c IH]; intros P ret processed il iv tr; cbn [merge_clean merge_trace].
     - intros _ H. injection H as H. subst tr. constructor.
-    - destruct (scan_ext (verts ret) 0 (pinner P) processed (scan_start false, 0, 0, il, iv)) as [[[[md me] ml] il'] iv'].
+    - destruct (scan_ext (verts ret) 0 (pinner P) processed (scan_start false, 0, 0, il, iv)) as [[[[md me0] ml] il'] iv'].
       destruct (nth_error (pinner P) ml) as [hole|]; [|discriminate].
       destruct (Nat.eqb (llen hole) 0) eqn:En; [discriminate|]. cbn [negb andb]. apply Nat.eqb_neq in En.
+      destruct (attach_index false P (verts ret) me0 hole iv') as [me| |]; try discriminate. cbn [rbind].
       destruct (rebuild false (lnormal (pouter P)) (verts ret) 0 me hole iv' loop_new) as [aux| |] eqn:Er; try discriminate.
       intros H. apply andb_prop in H. destruct H as [Hl Hc]. apply Nat.eqb_eq in Hl.
       rewrite rebuild_is_push_seq in Er by exact En. destruct (push_seq_len _ _ _ _ Er) as [_ Hv]. cbn [llen verts loop_new length] in Hv.
@@ -738,9 +834,10 @@ Section MergedNormal.
   Proof.
     induction count as [|c IH]; intros P ret processed il iv L; cbn [merge_clean merge_holes].
     - intros _ H. inversion H; subst. left. split; reflexivity.
-    - destruct (scan_ext (verts ret) 0 (pinner P) processed (scan_start false, 0, 0, il, iv)) as [[[[md me] ml] il'] iv'].
+    - destruct (scan_ext (verts ret) 0 (pinner P) processed (scan_start false, 0, 0, il, iv)) as [[[[md me0] ml] il'] iv'].
       destruct (nth_error (pinner P) ml) as [hole|]; [|discriminate].
       destruct (Nat.eqb (llen hole) 0) eqn:En; [discriminate|]. cbn [negb andb]. apply Nat.eqb_neq in En.
+      destruct (attach_index false P (verts ret) me0 hole iv') as [me| |]; try discriminate. cbn [rbind].
       destruct (rebuild false (lnormal (pouter P)) (verts ret) 0 me hole iv' loop_new) as [aux| |] eqn:Er; try discriminate.
       cbn [rbind]. intros H HL. apply andb_prop in H. destruct H as [Hl Hc]. apply Nat.eqb_eq in Hl.
       rewrite rebuild_is_push_seq in Er by exact En.
@@ -936,8 +1033,9 @@ Section Bounded.
     - unfold st_md in Hmin. cbn [fst] in Hmin. rewrite Hn'.
       assert (Ed : (d <? nmaxf)%num = true) by (apply Rltb_true; lra). rewrite Ed. cbn [andb].
       pose proof (nth_error_In _ _ Hn') as Ih'.
+      destruct (attach_index_ok P (ev :: vs') j' h' l' ltac:(lia)) as [me Ea]. rewrite Ea.
       apply IH.
-      + intros C. assert (I0 : In ev (splice (ev :: vs') 0 j' (walk_list false (vis_same_direction (lnormal (pouter P)) (lnormal h')) (verts h') l')))
+      + intros C. assert (I0 : In ev (splice (ev :: vs') 0 me (walk_list false (vis_same_direction (lnormal (pouter P)) (lnormal h')) (verts h') l')))
           by (apply In_splice_old; left; reflexivity). rewrite C in I0. destruct I0.
       + intros v Hv. apply In_splice_inv in Hv. destruct Hv as [Hv|Hv]; [apply Hin; exact Hv|].
         apply In_walk_inv in Hv; [|apply Hh; exact Ih']. unfold poly_verts. apply in_or_app. right. apply in_flat_map. exists h'. split; assumption.
